@@ -2,7 +2,7 @@
 # tools/seedmatrix.sh [seed-id ...]  — runs every seeded change against a set of checks and
 # writes seeded/<id>/detection.txt (SEED-RESULT lines). Never touches /repo.
 cd "$(dirname "$0")/.."
-cheap="C01 C02 C04 C05 C06 C07 C08 C09 C10 C11 C12 C13 C14 C15 C18 C19 C20 C16"
+cheap="${SEEDMATRIX_CHECKS:-C01 C02 C04 C05 C06 C07 C08 C09 C10 C11 C12 C13 C14 C15 C18 C19 C20 C16}"
 seeds=("$@"); [ ${#seeds[@]} -eq 0 ] && seeds=($(ls seeded))
 for sd in "${seeds[@]}"; do
   own="${sd%%-*}"
